@@ -105,7 +105,12 @@ class ContractMixin:
                     bt = self.to_term(st, base)
                     if not z3.is_false(smt.simp(is_ref(bt))):
                         mods['contents'].append(r_of(bt))
-                        mods['guards'][r_of(bt).get_id()] = smt.simp(is_ref(bt))
+                        g = is_ref(bt)
+                        for kw_ in a.keywords:
+                            if kw_.arg == 'when':
+                                # contents(x, when=cond): x may be written only if cond holds (in the pre-state)
+                                g = AND(g, self.spec_bool(st, self.sev(st, kw_.value, env, c.module)))
+                        mods['guards'][r_of(bt).get_id()] = smt.simp(g)
                 elif isinstance(a, ast.Call) and isinstance(a.func, ast.Name) and a.func.id == 'ghost':
                     mods['ghost'].append(a.args[0].value)
                 elif isinstance(a, ast.Call) and isinstance(a.func, ast.Name) and a.func.id == 'younger_instances':
